@@ -593,6 +593,43 @@ def import_calls_harness(res, kind):
         "unwind": 3, "props": ["C07"], "direction": "import", "heap": False, "handles": True}
 
 
+def map_harness(n):
+    """map<u8, u32> with a CONCRETE number of entries n in {0, 1} (symbolic keys/values/padding): BTreeMap with a symbolic
+    length <= 1 exhausts 16 GB in CBMC (measured), a concrete one takes ~20 s."""
+    one = n > 0
+    L = ["led::begin();",
+         "let k: u8 = kani::any(); let v: u32 = kani::any(); let ab: [u8; 8] = kani::any();",
+         "let mut p: *mut u8 = 4 as *mut u8;"]
+    if one:
+        L += ["p = hal::alloc::alloc(Layout::from_size_align_unchecked(8, 4));",
+              "core::ptr::copy_nonoverlapping(ab.as_ptr(), p, 8); *p = k; *(p.add(4) as *mut u32) = v;"]
+    L += ["let gk: u8 = kani::any(); let gv: u32 = kani::any();", "let mut g = wit_bindgen::rt::Map::new();"]
+    if one:
+        L.append("g.insert(gk, gv);")
+    L += ["GIV_f_map = Some(g);",
+          "let ret = m::_export_f_map_cabi::<G>(p, %d);" % n,
+          'kani::assert(CALLS_f_map == 1, "C05|arg|call: the user function runs exactly once");',
+          "let r = REC_f_map.take().unwrap();",
+          'kani::assert(r.0.len() == %d, "C05|arg|len");' % n]
+    if one:
+        L += ["let (a, b) = r.0.iter().next().unwrap();",
+              'kani::assert(*a == k, "C05|arg|value");', 'kani::assert(*b == v, "C05|arg|value");']
+    L += ["drop(r);",
+          "let rp = *(ret as *const *const u8); let rl = ldp(ret, 8, 8);",
+          'kani::assert(rl == %d, "C05|res|len");' % n]
+    if one:
+        L += ['kani::assert(ldp(rp, 0, 1) == gk as u64, "C05|res|value");', 'kani::assert(ldp(rp, 4, 4) == gv as u64, "C05|res|value");']
+    L += ['kani::assert(led::LIVE == %d, "C06|leak-args|after the call (and the drop of the received value) only the result\'s buffers are live");' % n,
+          "m::__post_return_f_map::<G>(ret);",
+          'kani::assert(led::LIVE == 0, "C06|leak-result|no block is live after post-return");',
+          'kani::cover!(true, "reached the end");', "// @DISPATCH@"]
+    text = "\n".join(["#[kani::proof]", "#[kani::unwind(3)]"] + STUBS + ["pub fn k_f_map_len%d() { unsafe {" % n] +
+                     ["  " + l for l in L] + ["} }"])
+    return text, {"function": "f-map", "class": "map-u8-u32-len%d" % n, "unwind": 3, "props": ["C05", "C06"], "direction": "export",
+                  "heap": True, "handles": False,
+                  "assumes": ["map<u8,u32>: CONCRETE entry count %d (keys, values and padding bytes symbolic)" % n]}
+
+
 # --------------------------------------------------------------------------
 # the mock host reached through the generator hook
 # --------------------------------------------------------------------------
@@ -797,6 +834,11 @@ def build_lib(world, w_rs, opts, L, S, tier, nl=None):
             continue
         harnesses["k_" + f.rust] = dict(meta, text=text)
         parts.append(text)
+    if any(f.special == "map" for f in world.funcs):
+        for n in (0, 1):
+            text, meta = map_harness(n)
+            harnesses["k_f_map_len%d" % n] = dict(meta, text=text)
+            parts.append(text)
     has_rt = "mod _rt" in w_rs
     if has_rt and "pub struct Resource<T: WasmResource>" in w_rs:
         text, meta = seq_harness("k_res_rt_seq", "_rt::Resource::<HK>::from_handle(h)", "_rt::Resource::<HK>::take_handle(&r)",
@@ -853,7 +895,7 @@ def build_lib(world, w_rs, opts, L, S, tier, nl=None):
     # text, the mock host, the harness itself.  Resource harnesses call several exports: whole text.
     items = glue_items(w_rs)
     for k, v in harnesses.items():
-        fn = k[2:] if k.startswith("k_f_") else None
+        fn = re.sub(r"_len\d$", "", k[2:]) if k.startswith("k_f_") else None
         sliced = w_rs
         if fn is not None:
             for name, a, b in reversed(items):
